@@ -880,11 +880,6 @@ impl<'r> ReplacementArray {
             match optional.find(OPTIONAL_INDICATOR) {
                 None => return None,
                 Some(start_index) => {
-                    if !optional[..start_index].trim().is_empty() {
-                        // the optional text doesn't start the string, so it doesn't directly follow 'prev' and isn't a repetition of it
-                        // (what is returned below starts after the optional text -- the speech in front of it would be lost)
-                        return None;
-                    }
                     let optional_word_start_slice = &optional[start_index + OPTIONAL_INDICATOR_LEN..];
                     // now find the end
                     match optional_word_start_slice.find(OPTIONAL_INDICATOR) {
